@@ -303,3 +303,90 @@ Proof.
     constructor; [|constructor]. apply ev_aligned_direct; [exact hmodAB| |reflexivity].
     rewrite Zminus_mod, hmodAE, hmodAB. reflexivity.
 Qed.
+
+(* ------------------------------------------------------------------ *)
+(* every traced request is aligned — for EVERY request (also at/after EOF, also when the
+   bounce buffer cannot be allocated)                                   *)
+Lemma Forall_meta A am e : is_io e = false -> Forall (ev_aligned A am) [e].
+Proof. intros H. constructor; [|constructor]. intros C. congruence. Qed.
+
+Lemma al_rmw_calls_aligned k am vec f data bufs off :
+  aligned_guard k off (zlen data) -> 0 < zlen data ->
+  Forall (ev_aligned (2 ^ k) am) (rs_trace (al_rmw (2 ^ k) am vec f data bufs off (p2split (2 ^ k) off (zlen data)))).
+Proof.
+  intros G Hpos. destruct (guard_facts k off _ G Hpos) as (HA & SF & HW).
+  destruct (alloc_fails (2 ^ k) am) eqn:Hal.
+  - unfold al_rmw. rewrite Hal. cbn [fail rs_trace]. apply Forall_meta. reflexivity.
+  - apply (al_rmw_spec _ _ _ _ _ _ _ _ HA Hpos SF Hal HW).
+Qed.
+
+Lemma al_pwrite_calls_aligned k am f b off : aligned_guard k off (zlen (sg_data b)) ->
+  Forall (ev_aligned (2 ^ k) am) (rs_trace (al_pwrite (2 ^ k) am f b off)).
+Proof.
+  intros G. destruct (alloc_fails (2 ^ k) am) eqn:Hal; [|apply al_pwrite_refines; assumption].
+  unfold al_pwrite. destruct (Z.eqb_spec (zlen (sg_data b)) 0) as [E|E]; [constructor|].
+  pose proof (zlen_nonneg (sg_data b)) as Hn. assert (Hpos : 0 < zlen (sg_data b)) by lia.
+  destruct (guard_facts k off _ G Hpos) as (HA & SF & HW).
+  destruct (is_aligned _ && _) eqn:D; [|apply al_rmw_calls_aligned; assumption].
+  cbn [rs_trace]. constructor; [|constructor].
+  apply andb_true_iff in D. destruct D as (D1 & D2).
+  destruct (is_aligned_mods _ _ _ _ _ _ HA SF D1) as (M1 & M2).
+  apply ev_aligned_direct; [exact M1|exact M2|]. intros ->. cbn [negb orb] in D2. exact D2.
+Qed.
+
+Lemma al_pwritev_calls_aligned k am f segs off : aligned_guard k off (sum_len segs) ->
+  Forall (ev_aligned (2 ^ k) am) (rs_trace (al_pwritev (2 ^ k) am f segs off)).
+Proof.
+  intros G. destruct (alloc_fails (2 ^ k) am) eqn:Hal; [|apply al_pwritev_refines; assumption].
+  unfold al_pwritev. destruct (Z.eqb_spec (sum_len segs) 0) as [E|E]; [constructor|].
+  pose proof (zlen_nonneg (gather segs)) as Hn. rewrite zlen_gather in Hn. assert (Hpos : 0 < sum_len segs) by lia.
+  destruct (guard_facts k off _ G Hpos) as (HA & SF & HW).
+  destruct (is_aligned _ && _) eqn:D.
+  - cbn [rs_trace]. constructor; [|constructor].
+    apply andb_true_iff in D. destruct D as (D1 & D2).
+    destruct (is_aligned_mods _ _ _ _ _ _ HA SF D1) as (M1 & M2).
+    apply ev_aligned_direct; [exact M1|exact M2|]. intros ->. cbn [negb orb] in D2. exact D2.
+  - rewrite <- zlen_gather in *. apply al_rmw_calls_aligned; assumption.
+Qed.
+
+Lemma al_pread_calls_aligned k am f b off : aligned_guard k off (zlen (sg_data b)) ->
+  Forall (ev_aligned (2 ^ k) am) (rs_trace (al_pread (2 ^ k) am f b off)).
+Proof.
+  intros G. unfold al_pread. destruct (Z.eqb_spec (zlen (sg_data b)) 0) as [E|E]; [constructor|].
+  pose proof (zlen_nonneg (sg_data b)) as Hn. assert (Hpos : 0 < zlen (sg_data b)) by lia.
+  destruct (guard_facts k off _ G Hpos) as (HA & SF & HW).
+  destruct (is_aligned _ && _) eqn:D.
+  - cbn [rs_trace]. constructor; [|constructor].
+    apply andb_true_iff in D. destruct D as (D1 & D2).
+    destruct (is_aligned_mods _ _ _ _ _ _ HA SF D1) as (M1 & M2).
+    apply ev_aligned_direct; [exact M1|exact M2|]. intros ->. cbn [negb orb] in D2. exact D2.
+  - destruct (alloc_fails (2 ^ k) am); [constructor|].
+    destruct SF as [hAB hABlt hAE hbrem herem herem0 herem1 habo haeo halen hblocks hsmall hnotsmall hmodAB hmodAE].
+    assert (T : Forall (ev_aligned (2 ^ k) am)
+                  [mkEv 0 KPread (abo (2 ^ k) (p2split (2 ^ k) off (zlen (sg_data b))))
+                              (alen (2 ^ k) (p2split (2 ^ k) off (zlen (sg_data b)))) true]).
+    { constructor; [|constructor]. rewrite habo, halen. apply ev_aligned_direct; [exact hmodAB| |reflexivity].
+      rewrite Zminus_mod, hmodAE, hmodAB. reflexivity. }
+    destruct (_ <? _); exact T.
+Qed.
+
+Lemma al_preadv_calls_aligned k am f segs off : aligned_guard k off (sum_len segs) ->
+  Forall (ev_aligned (2 ^ k) am) (rs_trace (al_preadv (2 ^ k) am f segs off)).
+Proof.
+  intros G. unfold al_preadv. destruct (Z.eqb_spec (sum_len segs) 0) as [E|E]; [constructor|].
+  pose proof (zlen_nonneg (gather segs)) as Hn. rewrite zlen_gather in Hn. assert (Hpos : 0 < sum_len segs) by lia.
+  destruct (guard_facts k off _ G Hpos) as (HA & SF & HW).
+  destruct (is_aligned _ && _) eqn:D.
+  - cbn [rs_trace]. constructor; [|constructor].
+    apply andb_true_iff in D. destruct D as (D1 & D2).
+    destruct (is_aligned_mods _ _ _ _ _ _ HA SF D1) as (M1 & M2).
+    apply ev_aligned_direct; [exact M1|exact M2|]. intros ->. cbn [negb orb] in D2. exact D2.
+  - destruct (alloc_fails (2 ^ k) am); [constructor|].
+    destruct SF as [hAB hABlt hAE hbrem herem herem0 herem1 habo haeo halen hblocks hsmall hnotsmall hmodAB hmodAE].
+    assert (T : Forall (ev_aligned (2 ^ k) am)
+                  [mkEv 0 KPreadv (abo (2 ^ k) (p2split (2 ^ k) off (sum_len segs)))
+                              (alen (2 ^ k) (p2split (2 ^ k) off (sum_len segs))) true]).
+    { constructor; [|constructor]. rewrite habo, halen. apply ev_aligned_direct; [exact hmodAB| |reflexivity].
+      rewrite Zminus_mod, hmodAE, hmodAB. reflexivity. }
+    destruct (_ <? _); exact T.
+Qed.
